@@ -435,6 +435,12 @@ def gen_history_programs(r, n, maxlen=25, removals=True, full=False):
         vals = [G.data(r, r.pick([0, 1, 5, 40, 300])) + bytes([j]) for j in range(3)]
         ops = []
         steps = []          # (index of op, kind, key, algo, data)
+        if r.chance(0.3):
+            # the bucket of one key starts out holding garbage / a torn record of a foreign key
+            gk = r.pick(keys)
+            torn = L.frame(L.record_json("someone else", L.sri_of("sha256", b"x"), 1, 1, {"m": "\u00e9\u65e5"}, None))
+            junk = r.pick([torn[:r.randrange(1, len(torn))], b"\nnot a record", b"\n\xff\xfe broken \xc3", torn[:len(torn) - 1] + b"X" + torn[:40]])
+            ops.append(f"put {bucket_path(gk)} {hx(junk)}")
         for _ in range(r.randrange(3, maxlen)):
             k = r.pick(keys)
             what = r.random()
@@ -874,7 +880,8 @@ def damage_bucket(r, frames):
     """Damage one place of a bucket made of `frames`; returns (bytes, description)."""
     whole = b"".join(frames)
     kind = r.pick(["cut_last", "cut_any", "flip", "garbage_line", "nul_line", "invalid_utf8_line", "kill_newline",
-                   "dup_fragment", "reorder", "crlf", "none", "overwrite_middle"])
+                   "dup_fragment", "dup_fragment", "reorder", "crlf", "none", "overwrite_middle", "unicode_line",
+                   "unicode_line", "tabbed_line"])
     if kind == "cut_last":
         n = r.randrange(0, len(frames[-1]))
         return whole[:len(whole) - len(frames[-1]) + n], f"last record cut at {n}"
@@ -889,12 +896,24 @@ def damage_bucket(r, frames):
                 "invalid_utf8_line": b"\n\xff\xfe\xfd garbage \xc3"}[kind]
         i = r.randrange(len(frames) + 1)
         return b"".join(frames[:i]) + line + b"".join(frames[i:]), f"{kind} before record {i}"
+    if kind == "unicode_line":
+        # valid UTF-8, longer than a checksum, multi-byte characters at every alignment
+        txt = ("#" * r.randrange(0, 4)) + "".join(r.pick(["\u00e9", "\u65e5", "\U0001f600", "\u2013", "x"]) for _ in range(r.randrange(25, 90)))
+        i = r.randrange(len(frames) + 1)
+        return b"".join(frames[:i]) + b"\n" + txt.encode() + b"".join(frames[i:]), f"unicode_line before record {i}"
+    if kind == "tabbed_line":
+        txt = "a" * r.randrange(60, 70) + "\t" + "\u00e9" * r.randrange(1, 40) + r.pick(["", "\t", "\tz"])
+        i = r.randrange(len(frames) + 1)
+        return b"".join(frames[:i]) + b"\n" + txt.encode() + b"".join(frames[i:]), f"tabbed_line before record {i}"
     if kind == "kill_newline" and len(frames) > 1:
         i = r.randrange(1, len(frames))
         return b"".join(frames[:i]) + b"X" + frames[i][1:] + b"".join(frames[i + 1:]), f"newline before record {i} overwritten"
     if kind == "dup_fragment":
         i = r.randrange(len(frames)); n = r.randrange(1, len(frames[i]))
-        return whole + frames[i][:n], f"fragment of record {i} duplicated at the end"
+        if r.chance(0.5):
+            return whole + frames[i][:n], f"fragment of record {i} duplicated at the end"
+        # a suffix fragment (starts anywhere inside the record, possibly inside a multi-byte character)
+        return whole + b"\n" + frames[i][n:], f"suffix fragment of record {i} appended as a line"
     if kind == "reorder" and len(frames) > 1:
         fs = list(frames); r.shuffle(fs)
         return b"".join(fs), "records reordered"
@@ -910,7 +929,7 @@ def damage_bucket(r, frames):
 def gen_bucket_programs(r, n):
     progs = []
     for i in range(n):
-        keys = r.pick([["k"], ["k"], ["é日本"], ["tab\tkey"], ["k", "k"]])
+        keys = r.pick([["k"], ["k"], ["é日本"], ["tab\tkey"], ["k", "k"], ["Überweisungsbeleg-für-März–日本語のキー"], ["ключ-😀-é"]])
         key = keys[0]
         recs = ref_history(r, r.randrange(1, 6), keys=[key])
         # a foreign key's record placed into the same bucket file
